@@ -638,9 +638,14 @@ func TestFaults(t *testing.T) {
 			_ = os.MkdirAll(filepath.Join(pkg, "nest.d", "s1", "s2"), 0755)
 			_ = os.WriteFile(filepath.Join(pkg, "nest.d", "s1", "s2", "deep"), bytes.Repeat([]byte("deep"), 20000), 0644)
 			_ = os.WriteFile(filepath.Join(pkg, "nest.d", "top"), []byte(r.word(1, 40)), 0755)
+			// a directory output whose regular files are all empty (a package skeleton): its file
+			// nodes still reference a blob - the one of the empty content - that has to be stored
+			_ = os.MkdirAll(filepath.Join(pkg, "void.d", "sub"), 0755)
+			_ = os.WriteFile(filepath.Join(pkg, "void.d", "__init__.py"), nil, 0644)
+			_ = os.WriteFile(filepath.Join(pkg, "void.d", "sub", ".keep"), nil, 0644)
 			target := &model.Target{Label: label.TL("pkg", "t"), ChangeHash: "changehash" + r.word(6, 6), Outputs: []model.Output{
 				model.NewOutput("file", "a.out"), model.NewOutput("file", "b.out"), model.NewOutput("file", "c.out"),
-				model.NewOutput("dir", "flat.d"), model.NewOutput("dir", "nest.d")}}
+				model.NewOutput("dir", "flat.d"), model.NewOutput("dir", "nest.d"), model.NewOutput("dir", "void.d")}}
 			writeFirst := func() {
 				result, err := reg.WriteOutputs(e.ctx, target, nil)
 				if err == nil {
